@@ -35,6 +35,11 @@ def linearT1 (T10 T100 t1 : K) : K := 1 / (1 / t1 - 1 / T10 + 1 / T100)
 /-- … and its inverse -/
 def fromLinearT1 (T10 T100 l : K) : K := l / (1 + l / T10 - l / T100)
 
+/-- second-order T1 interpolation (Eq. 22/23): the relaxivity that is fitted by a parabola in power … -/
+def secondOrderKrp (t1 t1w dT1w p kHH macroC spinC : K) : K := (1 / t1 - 1 / (t1w + dT1w * p) - kHH * macroC) / spinC
+/-- … and the way back to T1 -/
+def fromSecondOrderKrp (krp t1w dT1w p kHH macroC spinC : K) : K := 1 / (spinC * krp + 1 / (t1w + dT1w * p) + kHH * macroC)
+
 /-- calculate_smax (free spin probe) -/
 def smaxFree [OfNat K 2] (spinC c1987 : K) : K := 1 - 2 / (3 + 3 * (spinC * c1987))
 
